@@ -14,6 +14,23 @@ CHECKS = {
          "Trusts fontTools CPAL/COLR decompilation; colours outside the 4-value universe are assumed to behave alike (no branch on RGB values).",
          "DESIGN.md section 6, C15"),
 }
+CHECKS.update({
+ "C01": ("model_checking",
+         "deviation-bounded exhaustive lattice search (E1) over scene x configuration, every state compiled by the real code and judged by a point-wise COLRv1 reference semantics",
+         "All states with <=2 (quick) / <=3 (thorough) simultaneous deviations from a base scene over 27 dimensions (~110 non-default values: viewBox, metrics, width, user transform, tolerance, clip quantisation, flavour, outline, z-order, 20 placements of a reused copy, paints, linear/radial gradient sub-dimensions, group structure, sequence length, glyph count) are built with _generate_color_font, saved, reloaded, shaped, and compared with the scene-model picture under the envelope rule; no sampling.",
+         "Trusts fontTools decompilation, skia-pathops containment, and the independent COLR evaluator (bound to fontTools matrices, resvg and hand-computed cases by the self-test). Values between alphabet points and >3 simultaneous deviations are not covered.",
+         "DESIGN.md section 6, C01"),
+ "C02": ("model_checking",
+         "deviation-bounded exhaustive lattice search (E1) x 4 OT-SVG formats, judged by a point-wise SVG reference semantics in OT-SVG coordinates",
+         "Same lattice as C01 restricted to what reaches svg.py, x {picosvg, picosvgz, untouchedsvg, untouchedsvgz} x pretty_print; for every state the document covering the shaped glyph id must contain exactly one glyph<ID> element whose picture equals the scene model; untouched documents are also compared structurally with their source.",
+         "Trusts fontTools SVG table decompilation, lxml, and the SVG evaluator (validated against resvg in the self-test).",
+         "DESIGN.md section 6, C02"),
+ "C06": ("model_checking",
+         "deviation-bounded exhaustive lattice search (E1) in which every state is a pair of real builds (reuse on/off) compared leaf by leaf and point-wise",
+         "Every state with <=2/<=3 deviations over outline x placement x where the copy lives x paints x group x tolerance x {glyf_colr_1, glyf_colr_0, picosvg}: both builds must succeed, leaf lists must agree in count, order, placed outline (Hausdorff within tolerance+quantisation) and colour at interior probes, and the two pictures must be equal; reports how often reuse actually fired.",
+         "Differential oracle: needs no expected values; trusts the flatteners in vmc/oracles/flatten.py.",
+         "DESIGN.md section 6, C06"),
+})
 PENDING = {}  # id -> reason it is not claimed (yet)
 
 def main():
